@@ -22,13 +22,13 @@ void check(const std::string &name, rc::Gen<T> gen, Oracle oracle, Ser ser) {
         std::string key = oracle(c);
         if (!key.empty()) {
             if (vp::excluded(key)) { vp::stats().excluded++; return; }
-            last().key = key; last().replay = ser(c);
+            last().key = key; last().replay = ser(c);   // (the oracle may have set last().msg)
             RC_FAIL(key);
         }
     });
     if (!ok) {
         if (last().key.empty()) vp::fail("rapidcheck:gave-up-or-error", "rapidcheck reported failure without an oracle key (" + name + ")", "");
-        else vp::fail(last().key, "shrunk counterexample of '" + name + "'", last().replay);
+        else vp::fail(last().key, (last().msg.empty() ? std::string() : last().msg + " - ") + "shrunk counterexample of '" + name + "'", last().replay);
     }
 }
 
